@@ -34,6 +34,9 @@ OneAs(w, op, p) == [Rq(w.u, 12, "None", <<It(op, "", p)>>) EXCEPT !.hasg = w.has
 MenuC03(s) ==
     LET us == DOMAIN s.objs \cup {s.seq + 1} IN
     {OneAs(w, "Create", PCreate(<<"ENCRYPT", "WRAP_KEY">>, <<A("Operation Policy Name", pn)>>)) : pn \in PolNames, w \in {x \in Who : x.u = "alice"}}
+    \* a second owner of objects of the same type under the same policy: decisions that depend on the owner (ALLOW_OWNER)
+    \* differ between objects that agree in everything else
+    \cup {OneAs([u |-> "bob", hasg |-> FALSE, gs |-> {}], "Create", PCreate(<<"ENCRYPT">>, <<A("Operation Policy Name", pn)>>)) : pn \in {"default", "open"}}
     \cup {OneAs(w, "Register", PRegister(t, <<"DERIVE_KEY">>, <<A("Operation Policy Name", pn)>>)) :
              t \in {"SecretData", "OpaqueData"}, pn \in {"default", "grouped", "open"}, w \in {x \in Who : x.u = "alice"}}
     \cup {OneAs(w, op, PUid(u)) : w \in Who, op \in {"Activate", "Destroy", "GetAttributeList"}, u \in us}
